@@ -53,6 +53,13 @@ class RowMetadata(BaseModel):
     subline_header_rows: int = Field(
         default=0, description="Number of rows the subline_by header occupies"
     )
+    page_top_header_rows: int = Field(
+        default=0,
+        description=(
+            "Rows of page_by headings rendered above this row when it is the "
+            "first row of a page (every level is repeated at the page top)"
+        ),
+    )
     column_header_rows: int = Field(
         default=0, description="Number of rows for column headers"
     )
@@ -247,8 +254,13 @@ class PageBreakCalculator(BaseModel):
         font_size: float = 9,
         additional_rows_per_page: int = 0,
         new_page: bool = False,
+        pageby_as_rows: bool = True,
     ) -> pl.DataFrame:
-        """Generate complete row metadata for pagination."""
+        """Generate complete row metadata for pagination.
+
+        ``pageby_as_rows`` tells whether page_by values are rendered as spanning
+        heading rows (they are not when the page_by columns stay in the table).
+        """
 
         # 1. Calculate data rows
         # Use existing calculation logic but handle removed columns manually
@@ -344,33 +356,33 @@ class PageBreakCalculator(BaseModel):
                 width_idx += 1
 
             # 2. Calculate header rows
+            # One spanning row is rendered per page_by level whose value is not
+            # the divider: within a page from the first level that changed
+            # downwards, at the top of a page for every level.
             pageby_rows = 0
-            if page_by and page_by_changes[row_idx]:
-                # Construct header text
-                header_parts = []
-                for col in page_by:
+            page_top_rows = 0
+            if page_by and pageby_as_rows:
+                first_changed = 0
+                if row_idx > 0:
+                    first_changed = len(page_by)
+                    for level, col in enumerate(page_by):
+                        if str(df[col][row_idx - 1]) != str(df[col][row_idx]):
+                            first_changed = level
+                            break
+                for level, col in enumerate(page_by):
                     val = df[col][row_idx]
-                    if str(val) != "-----":
-                        header_parts.append(f"{col}: {val}")
-                header_text = " | ".join(header_parts)
-                if header_text:
-                    pageby_rows = self._calculate_header_rows(
-                        header_text, total_width, font_size=int(font_size)
+                    if str(val) == "-----":
+                        continue
+                    level_rows = self._calculate_header_rows(
+                        str(val), total_width, font_size=int(font_size)
                     )  # type: ignore
+                    page_top_rows += level_rows
+                    if level >= first_changed:
+                        pageby_rows += level_rows
 
+            # The subline_by heading is a paragraph repeated on every page; it
+            # is reserved once per page through additional_rows_per_page.
             subline_rows = 0
-            if subline_by and subline_by_changes[row_idx]:
-                # Construct header text
-                header_parts = []
-                for col in subline_by:
-                    val = df[col][row_idx]
-                    if str(val) != "-----":
-                        header_parts.append(f"{col}: {val}")
-                header_text = " | ".join(header_parts)
-                if header_text:
-                    subline_rows = self._calculate_header_rows(
-                        header_text, total_width, font_size=int(font_size)
-                    )  # type: ignore
 
             total_rows = max_lines_in_row + pageby_rows + subline_rows
 
@@ -380,6 +392,7 @@ class PageBreakCalculator(BaseModel):
                     "data_rows": max_lines_in_row,
                     "pageby_header_rows": pageby_rows,
                     "subline_header_rows": subline_rows,
+                    "page_top_header_rows": page_top_rows,
                     "column_header_rows": 0,  # To be filled later or passed in
                     "total_rows": total_rows,
                     "page": 0,  # To be assigned
@@ -396,6 +409,7 @@ class PageBreakCalculator(BaseModel):
             "data_rows": pl.Int64,
             "pageby_header_rows": pl.Int64,
             "subline_header_rows": pl.Int64,
+            "page_top_header_rows": pl.Int64,
             "column_header_rows": pl.Int64,
             "total_rows": pl.Int64,
             "page": pl.Int64,
@@ -457,6 +471,9 @@ class PageBreakCalculator(BaseModel):
                 current_rows = 0
 
             row["page"] = current_page
+            if current_rows == 0:
+                # First row of a page: every page_by heading is repeated above it
+                row_height = row["data_rows"] + row.get("page_top_header_rows", 0)
             current_rows += row_height
 
         return pl.DataFrame(rows)
